@@ -30,7 +30,7 @@ def run(ctx):
     R.explanation = ("Decides who changes the pool's `reserved` counter, that registering and releasing a reservation compute its contribution with the identical overlap scan (so release undoes reserve), that the "
                      "reservation set, the ring and the counter move together, and the guards of resize/shrinkToFit. Does not decide the union-of-aligned-ranges identity itself.")
     R.rule("C04-R1", "who-may-write reserved", floor=5)
-    R.rule("C04-R2", "add/remove compute the contribution with the same overlap scan", floor=3)
+    R.rule("C04-R2", "add/remove compute the contribution with the same overlap scan over the whole reservation set", floor=5)
     R.rule("C04-R3", "reservation set and ring updated together; numReservations = set size", floor=5)
     R.rule("C04-R4", "resize guard and shrinkToFit target", floor=2)
     R.rule("C04-R5", "size assigned only an aligned amount >= request", floor=3)
@@ -58,7 +58,12 @@ def run(ctx):
                 out.append("%s = %s" % (n["n"], render(kids(n)[0], False)))
         loops = [n for n in f.walk() if n["k"] == "CXXForRangeStmt"]
         if len(loops) != 1:
-            raise AnalysisBroken("%s: expected one range-for" % f.q)
+            # no scan over the whole set: reported below as a disagreement / incomplete scan
+            anyloop = [n for n in f.walk() if n["k"] in ("ForStmt", "WhileStmt", "DoStmt") and not n.get("mac")]
+            if not anyloop:
+                raise AnalysisBroken("%s: no loop over the reservations" % f.q)
+            out.append("PARTIAL-SCAN " + render(kids(anyloop[0])[0], False)[:80])
+            return out
         body = kids(loops[0])[-1]
         rng = render(kids(loops[0])[0], False)
         out.append("for " + rng)
@@ -73,6 +78,11 @@ def run(ctx):
                 out.append(n["k"])
         return out
     sa, sr = scan_signature(add), scan_signature(rem)
+    for f_, sg in ((add, sa), (rem, sr)):
+        whole = any(x.startswith("for ") and "reservations" in x for x in sg)
+        R.ob("C04-R2", whole, f_.q, "scan visits every live reservation", "%s:%d" % (f_.relfile, f_.d["line"]),
+             "range-for over the whole reservation set" if whole else
+             "the overlap scan does not run over the whole reservation set: a covering reservation that is not a neighbour in offset order (a parent behind a sibling slice) is never examined, so `reserved` drops while the range is still covered")
     ok = sa == sr
     diff = [(a, b) for a, b in zip(sa, sr) if a != b][:2]
     R.ob("C04-R2", ok, MP + "add/removeModeMemoryRef", "scan:identical", "%s:%d" % (add.relfile, add.d["line"]),
